@@ -4,11 +4,11 @@ CONSTANTS
   InitHeaps <- MCInit2
   MaxDepth = 1
   Breaks <- BreaksQ
-  Degs <- DegsQ
-  MaxNpts = 5
+  Degs <- DegsT
+  MaxNpts = 6
   Acts = {"CvSplit"}
-  PtKinds = {"gen"}
-  WtKinds = {"none", "gen"}
+  PtKinds = {"gen", "unit"}
+  WtKinds = {"none", "gen", "gen2"}
   ExtraNodes <- Extra0
   NodeSize = 2
   Scenario = "single"
